@@ -30,6 +30,9 @@ STRESS = [
     "class P1\n    def p1(self) -> Int => 1\nclass P2\n    def p2(self) -> Int => 2\nclass P3\n    def p3(self) -> Int => 3\nclass Child: P1, P2, P3\n    def c(self) -> Int => self.p1() + self.p2() + self.p3()\ndef x := Child().c()\n",
     "def u: {Int, Str, Bool} := 1\ndef v: {Str, Int} := \"s\"\ndef f(x: {Int, Str}) -> {Int, Str} => x\ndef w := f(u)\n",
     "def f(x: Int) -> Int => x\ndef f(x: Str) -> Str => x\ndef a := f(1)\n",
+    # a method / a field of a union receiver whose members give different types
+    "class A\n    def f(self) -> Float => 1.5\n    def v: Float := 1.5\nclass B\n    def f(self) -> Int => 1\n    def v: Int := 1\ndef g(x: {A, B}) =>\n    def y := x.f()\n    print(y)\ndef h(x: {A, B}) -> Float => x.v\ng(A())\n",
+    "class A\n    def f(self) -> Str => \"a\"\nclass B\n    def f(self) -> Int => 1\nclass C\n    def f(self) -> Bool => True\ndef g(x: {A, B, C}) => x.f()\ndef k(x: {B, A}) -> Int => x.f()\n",
     "class G[T]\n    def v: T\nclass G\n    def w: Int := 1\ndef g := G()\n",
     "def x := if True then 1 else \"s\"\ndef y := match 1\n    1 => 1\n    2 => \"s\"\n    _ => True\nprint(x)\n",
     "class A\n    def a: Int := 1\n    def b: Int := 2\n    def c: Int := 3\n    def d: Int := 4\n    def e: Int := 5\n    def f(self) -> Int => self.a\n    def g(self) -> Int => self.b\n",
@@ -47,10 +50,13 @@ def run(tier):
     r = vlib.tlc("MC_Session", "MC_Session.cfg")
     chk.add_tlc(r)
     hist_pool = STRESS[:6]
-    reps = 20 if tier == "quick" else 100
+    reps = 20 if tier == "quick" else 40
     progs = families.all_programs(chk, depth_values=0, depth_verdict=0, only=("MC_C01", "MC_C05", "MC_C08"))
+    # every order of fields, named and operator methods in a class body (spec/MC_C17.tla OrderShapes): the generator sorts them
+    import probes
+    orders = [c["src"] for c in probes.generate(chk, "MC_C17", ["shapes"], 0) if c["kind"] == "member-order"]
     rng = corpus.rng_for(PROP, vlib.seed())
-    pool = list(STRESS) + [p["src"] for p in progs[:: (9 if tier == "quick" else 2)]] + [t for _, t in corpus.repo_samples()[:: (3 if tier == "quick" else 1)]]
+    pool = list(STRESS) + orders[:: (4 if tier == "quick" else 2)] + [p["src"] for p in progs[:: (9 if tier == "quick" else 2)]] + [t for _, t in corpus.repo_samples()[:: (3 if tier == "quick" else 1)]]
     pool = [s for s in dict.fromkeys(pool) if len(s) < 5000]
     # isolated responses: one fresh process per batch, each input once (annotate on: class bodies and unions are rendered)
     def serve(records):
